@@ -80,6 +80,24 @@ pub fn where_holds(name: &str, case: &Case, v: &Violation) -> bool {
     }
 }
 
-pub fn matching<'a>(findings: &'a [Finding], prop: &str, case: &Case, v: &Violation) -> Option<&'a Finding> {
-    findings.iter().find(|f| f.property == prop && v.class.starts_with(&f.class) && where_holds(&f.where_, case, v))
+pub fn matching<'a>(findings: &'a [Finding], prop: &str, case: &crate::anycase::AnyCase, v: &Violation) -> Option<&'a Finding> {
+    findings.iter().find(|f| {
+        f.property == prop
+            && v.class.starts_with(&f.class)
+            && match case.as_lib() {
+                Some(c) => where_holds(&f.where_, c, v),
+                None => where_holds_other(&f.where_, case, v),
+            }
+    })
+}
+
+/// Structural predicates over the non-library scenario kinds.
+pub fn where_holds_other(name: &str, case: &crate::anycase::AnyCase, _v: &Violation) -> bool {
+    use crate::anycase::AnyCase;
+    match (name, case) {
+        ("any", _) => true,
+        // !(x >= i64::MIN) and !(x <= i64::MAX) are not representable
+        ("atomic-at-i64-extreme", AnyCase::Drcp(c)) => c.atomics.iter().any(|a| (a.cmp == 0 && a.value == i64::MIN) || (a.cmp == 1 && a.value == i64::MAX)),
+        _ => false,
+    }
 }
